@@ -186,6 +186,43 @@ fn check_circle(d: u32, obs: &mut Obs) {
         obs.fail("circle==ellipse-with-equal-axes", String::new());
     }
     let ring: Pts = c.difference(&set(circle.offset(-1).points())).copied().collect();
+    // the same equivalences for shapes described by their centre and for sectors/arcs derived from a circle
+    if d <= 130 {
+        obs.class("described-by-centre");
+        for ctr in [(0, 0), (-3, -5), (6, -2), (-1, 9)] {
+            let cp = Point::new(ctr.0, ctr.1);
+            let cc = Circle::with_center(cp, d);
+            let ccp = set(cc.points());
+            if ccp != set(Ellipse::with_center(cp, Size::new(d, d)).points()) {
+                obs.fail("circle==ellipse-with-equal-axes", format!("both described by the centre {:?}", ctr));
+            }
+            let cring: Pts = ccp.difference(&set(cc.offset(-1).points())).copied().collect();
+            for (st, sw) in [(0.0f32, 360.0f32), (123.0, -360.0), (-45.0, 540.0)] {
+                if set(Sector::with_center(cp, d, st.deg(), sw.deg()).points()) != ccp || set(Sector::from_circle(cc, st.deg(), sw.deg()).points()) != ccp {
+                    obs.fail("sector-sweeping-360-or-more==circle", format!("sector described by the centre {:?} / derived from the circle, start {st} sweep {sw}", ctr));
+                }
+                if set(Arc::with_center(cp, d, st.deg(), sw.deg()).points()) != cring || set(Arc::from_circle(cc, st.deg(), sw.deg()).points()) != cring {
+                    obs.fail("arc-sweeping-360-or-more==one-pixel-ring", format!("arc described by the centre {:?} / derived from the circle, start {st} sweep {sw}", ctr));
+                }
+            }
+            // a partial sector / arc lies in the circle it was derived from, in the circle with the same centre and in the circle it reports
+            for (st, sw) in [(10.0f32, 100.0f32), (200.0, -250.0)] {
+                let (s1, s2) = (Sector::with_center(cp, d, st.deg(), sw.deg()), Sector::from_circle(cc, st.deg(), sw.deg()));
+                let (a1, a2) = (Arc::with_center(cp, d, st.deg(), sw.deg()), Arc::from_circle(cc, st.deg(), sw.deg()));
+                let s1c = set(s1.to_circle().points());
+                let a1c = set(a1.to_circle().points());
+                if !set(s1.points()).is_subset(&ccp) || !set(s2.points()).is_subset(&ccp) || !set(s1.points()).is_subset(&s1c) {
+                    obs.fail("sector-points-lie-in-the-circle", format!("sector described by the centre {:?} / derived from the circle, start {st} sweep {sw}", ctr));
+                }
+                if !set(a1.points()).is_subset(&ccp) || !set(a2.points()).is_subset(&ccp) || !set(a1.points()).is_subset(&a1c) {
+                    obs.fail("arc-points-lie-in-the-circle", format!("arc described by the centre {:?} / derived from the circle, start {st} sweep {sw}", ctr));
+                }
+                if set(s1.points()) != set(s2.points()) || set(a1.points()) != set(a2.points()) {
+                    obs.fail("same-curve-by-another-description", format!("sector/arc with centre {:?}: described by the centre vs derived from the circle with that centre, start {st} sweep {sw}", ctr));
+                }
+            }
+        }
+    }
     for sw in [360.0f32, -360.0, 360.25, 400.0, -719.0, 720.0] {
         for st in [0.0f32, 33.0, -90.0, 271.5] {
             if set(Sector::new(tl, d, st.deg(), sw.deg()).points()) != c {
@@ -522,7 +559,7 @@ fn main() {
         assumptions: &["angles follow the library's convention: direction (cos t, sin t) with y down, positive sweep clockwise on screen", "f64 distances with 1e-6 slack in favour of the code; observed maxima are reported in the counters"],
         parts: |_| vec![PartSpec::new("shapes", "verif"), PartSpec::new("angles", "verif"), PartSpec::new("angles-fixed-point", "verif_fp")],
         run_part,
-        required_classes: |_| vec!["circle", "ellipse", "thin-ellipse", "even-sides", "rounded-rectangle", "radii-need-confining", "unequal-radii", "sector-and-arc", "negative-sweep", "sweep>=360", "fractional-angle", "large-diameter", "sweep-just-below-360"],
+        required_classes: |_| vec!["circle", "described-by-centre", "ellipse", "thin-ellipse", "even-sides", "rounded-rectangle", "radii-need-confining", "unequal-radii", "sector-and-arc", "negative-sweep", "sweep>=360", "fractional-angle", "large-diameter", "sweep-just-below-360"],
         crash_is_verdict: false,
     })
 }
